@@ -644,6 +644,10 @@ class HistGen:
                 return [("req", op_script(c, r.chance(1, 2), self.script_cmds()))]
             if k < 54:
                 return [("req", op_plain(c, [b"MULTI"]))]
+            if k < 59:
+                # inside EXEC a blocking pop acts on the connection's database and never blocks
+                return [("req", op_plain(c, [r.choice([b"BLPOP", b"BRPOP"]), r.choice([b"l", b"l", b"k1", b"miss", b"s"]),
+                                             r.choice([b"0", b"30", b"abc"])]))]
             return [("req", op_plain(c, self.ge.command()))]
         k = r.below(100)
         if k < 20:
@@ -701,6 +705,14 @@ class Runner:
         replay = {"family": FAMILY, "ops": list(s.ops), "failing_step": len(s.steps) - 1,
                   "step": {k: step.get(k) for k in ("text", "impl", "code", "spec", "served", "spec_served", "delivered", "same", "accesses", "pre_sel")},
                   "switches": s.switches}
+        if step["agree"] and step["dev"] and step.get("name") != "notwoken":
+            # the reply is the code variant's; where code and Spec differ in the post-state only, look at the post-state
+            # before saying whom the implementation follows (all 16 databases and the selections)
+            di, dm = s.dump_impl_all(), s.dump_model_all()
+            si, sm = s.selections_impl(), s.selections_model()
+            if di != dm or (si is not None and any(si.get(c) != sm[c] for c in sm if c not in s.blocked)):
+                step["agree"] = False
+                step["post_state_differs_from_code"] = True
         if step["agree"] and step["dev"]:
             # the implementation does what the code variant does, and that is not what the property prescribes
             self.dev_steps += 1
@@ -767,6 +779,8 @@ class Runner:
         if foreign:
             out.update({"isolation": True, "wrote": foreign,
                         "why": "databases %s differ from the model although the request ran with database(s) %s" % (foreign, sorted(used))})
+        if step.get("post_state_differs_from_code"):
+            out.update({"isolation": True, "why": "the post-state (databases / selections) is not the code variant's"})
         if out["isolation"] and not step.get("died"):
             # judged against the code variant so far; the judge is the Spec: replay the history on the switch-free machine
             try:
@@ -778,9 +792,12 @@ class Runner:
                         if st.get("line"):
                             last = spec.ask(st["line"])
                     ds = (spec.ask("dumpall %d" % s.now()) or "").split(" || ")
+                    ss = (spec.ask("sels " + " ".join(str(c) for c in sorted(s.cl))) or "").split(" ")
                 finally:
                     spec.close()
-                if ds == di and last and step.get("line") and same_out(s.names_of_step(step), parse_tree(step["impl"]), parse_tree(last.split(" # ")[0])):
+                si = s.selections_impl()
+                sel_ok = si is None or all(c in s.blocked or str(si.get(c)) == x for c, x in zip(sorted(s.cl), ss))
+                if ds == di and sel_ok and last and step.get("line") and same_out(s.names_of_step(step), parse_tree(step["impl"]), parse_tree(last.split(" # ")[0])):
                     out.update({"isolation": False, "follows_spec": True,
                                 "why": "the implementation follows the Spec (switch-free machine) where the code variant deviates: the model switches are stale"})
             except (InternalError, OSError, ValueError):
@@ -995,7 +1012,7 @@ def main(tier, seed):
         "a script is the list of redis.calls it performs (one fixed wrapper script); Lua value conversion is applied outside the model (lua_engine.rs table; C12's subject)",
         "through scripts only commands whose executor.rs implementation agrees with the client-facing handler are used, with valid UTF-8 arguments (C12's subject otherwise)",
         "SELECT's argument syntax is Rust's str::parse::<usize> (accepts +5 and 007); error replies are compared as 'an error' only",
-        "blocking: single-key waits with integer timeouts that never fire (30 s / 0); multi-key leftovers, timeouts, pushes from scripts and blocking pops inside MULTI are C13's/C07's subject and are not generated",
+        "blocking: single-key waits with integer timeouts that never fire (30 s / 0); multi-key leftovers, timeouts and pushes from scripts are C13's subject and are not generated; a blocking pop queued in MULTI never blocks (fast path or null array)",
         "WATCH, pub/sub, AUTH are not part of this machine; TTLs are >= 100 s so that nothing expires during a history",
     ]
     ok, log, errs = proof_phase(rep, families=[FAMILY])
@@ -1016,6 +1033,8 @@ def main(tier, seed):
             rep.count("corpus." + name)
             if name.startswith("clean") and run.dev_steps != dev_before:
                 run.disagreements.append({"family": FAMILY, "ops": ops, "why": "clean corpus history %s deviates from the Spec" % name})
+            # (the three witness histories of the repaired findings run the same way: a deviation on them is judged by the
+            #  oracle like any other and, with no finding listed, is a violation — a regression is caught on the first history)
         corpus_known = set(run.known_seen)
         n_hist = 600 if tier == "quick" else 12000
         budget = 40 if tier == "quick" else 600
